@@ -1027,7 +1027,9 @@ def parse(
     db_folder.mkdir(parents=True, exist_ok=True)
 
     full_db_path = db_folder / cache_db
-    conn = sqlite3.connect(full_db_path, isolation_level=None)
+    # Concurrent callers wait for each other's transactions in SQLite's polling busy
+    # handler; the default of 5 s is reached with a dozen simultaneous processes.
+    conn = sqlite3.connect(full_db_path, isolation_level=None, timeout=60.0)
 
     cursor = conn.cursor()
 
@@ -1038,13 +1040,16 @@ def parse(
             result = cursor.fetchone()
             if result != ("ok",):
                 raise sqlite3.DatabaseError("Database integrity check failed")
-        except sqlite3.DatabaseError:
+        except sqlite3.DatabaseError as e:
             conn.close()
+            if isinstance(e, sqlite3.OperationalError) and "locked" in str(e):
+                # busy, not corrupt: never delete a database other callers are using
+                raise
 
             logger.warning("Model cache database is corrupt, recreating...")
             os.remove(full_db_path)
 
-            conn = sqlite3.connect(full_db_path, isolation_level=None)
+            conn = sqlite3.connect(full_db_path, isolation_level=None, timeout=60.0)
             cursor = conn.cursor()
 
         _check_database_structure(conn)
